@@ -189,7 +189,7 @@ def simulate(prog, schedule, chooser, post_tags=('zz',), max_steps=400):
                 elif pending[n] is not True:
                     how[n] = 'on'
                 pending[n] = True
-        snap = dict((n, (mode[n], pending[n], blocked[n], how[n], lost[n])) for n in names)
+        snap = dict((n, (mode[n], pending[n], blocked[n], how[n], lost[n], left_by_line[n])) for n in names)
         snap['_in_error'] = in_error
         snaps.append((len(trace), b, snap))
         if not in_error:
@@ -279,7 +279,7 @@ def simulate(prog, schedule, chooser, post_tags=('zz',), max_steps=400):
     # program has ended: nothing may be handled any more
     stats['after_end'] = len(schedule.get(POST, ()))
     stats['unhandled_at_end'] = sum(1 for n in names if pending[n] is True)
-    end_snap = dict((n, (mode[n], pending[n], blocked[n], how[n], lost[n])) for n in names)
+    end_snap = dict((n, (mode[n], pending[n], blocked[n], how[n], lost[n], left_by_line[n])) for n in names)
     end_snap['_in_error'] = False
     end_snap['_ended'] = True
     snaps.append((len(trace), POST, end_snap))
@@ -345,7 +345,7 @@ def diagnose(prog, results, observed):
         reasons = []
         kind = dict((t['name'], t['kind']) for t in prog['traps'])[n]
         for _, bnd, s in snaps:
-            md, pend, blk, how, lost_before = s[n]
+            md, pend, blk, how, lost_before = s[n][:5]
             if (kind == 'timer' and lost_before and not s.get('_ended') and not s['_in_error'] and not blk
                     and md == 'on' and not pend):
                 # the only occurrence since the last entry fell into an OFF period
@@ -370,6 +370,9 @@ def diagnose(prog, results, observed):
             return reasons[-1], 'handler of %s entered (%s) at trace position %d' % (n, reasons[-1], i)
         return 'fired-at-unexpected-point', 'handler of %s entered at trace position %d' % (n, i)
     n = entry_of(want)
+    if n is not None and any(s[n][5] for _, _, s in snaps) and (n + '<') not in observed[i:]:
+        return ('not-reenabled-after-return-line',
+                'after its handler ended in RETURN <line>, %s is never handled again although it is ON and occurs (trace position %d)' % (n, i))
     if n is not None:
         how = None
         for _, bnd, s in snaps:
